@@ -36,7 +36,8 @@ CHECKS = {
     },
     "C14": {
         "level": "exploration",
-        "classes": ["C14"],
+        # reference counts are the mechanism behind "removing one user leaves the others intact"
+        "classes": ["C14", "C06:string-refcount"],
         "rule": HIST_RULE + "; every plan is executed on two replicas (strings offered linked vs through copied kinds) "
                 "and every public accessor is compared after every operation",
         "budget_s": {"quick": 70, "thorough": 900},
